@@ -397,6 +397,7 @@ const char *StatusName(uint32_t s, int sig)
         first = false;
         drv.RunOp(prog, id, op);
       }
+      if (!first) YieldToController(id);  // a scheduling point between the last call and the thread's exit
       Log("{\"e\":\"tend\",\"t\":%d}", id);
       g_t[id].body_done = true;
       drv.ThreadEnd(prog, id);
